@@ -2148,12 +2148,27 @@ impl<'a, const C: usize, const R: usize, T: 'a + Copy + std::fmt::Debug> Layout<
             // heapless `collect` panics when the iterator yields more than the capacity;
             // with too many held layers keep the most recently activated ones, leaving room for
             // the default layer and the first layer which must always be consulted.
-            let mut v = self
-                .active_held_layers()
-                .take(MAX_ACTIVE_LAYERS - 2)
-                .collect::<LayerStack>();
-            let _ = v.push(self.default_layer as u16);
-            if self.delegate_to_first_layer && current_layer != 0 && self.default_layer != 0 {
+            // A layer can be held more than once, or be held while it is also the default layer.
+            // Looking at it again further down the order finds the same transparent action again,
+            // and with several transparent items nested in that action the work multiplies with
+            // every repetition. Each layer is consulted once, at its first position.
+            let mut v = LayerStack::new();
+            for layer in self.active_held_layers() {
+                if v.len() >= MAX_ACTIVE_LAYERS - 2 {
+                    break;
+                }
+                if !v.contains(&layer) {
+                    let _ = v.push(layer);
+                }
+            }
+            if !v.contains(&(self.default_layer as u16)) {
+                let _ = v.push(self.default_layer as u16);
+            }
+            if self.delegate_to_first_layer
+                && current_layer != 0
+                && self.default_layer != 0
+                && !v.contains(&0)
+            {
                 let _ = v.push(0);
             }
             v
